@@ -195,6 +195,7 @@ fn run_rel(r: &mut Rng, n: u64) {
     // a small pool, so that shared prefixes of every length occur; with names that are string prefixes of one another (a/ab, bar/bar.map),
     // case variants (a/A, Lib/lib) and a non-ASCII name: components are compared whole and exactly
     let names = ["a", "b", "c.js", "d", "ab", "A", "bar", "bar.map", "Lib", "lib", "\u{e9}"];
+    rel_case("x7", "/a/b/", "/a/c"); rel_case("x8", "a/b.js", "a/c/"); rel_case("x9", "/", "/a"); rel_case("x10", "/a", "/");
     let path = |r: &mut Rng| -> String { let k = 1 + r.below(5); let abs = r.below(2) == 0; let sep = if r.below(4) == 0 { "\\" } else { "/" }; let pool = if r.below(3) == 0 { 11 } else { 6 }; let comps: Vec<&str> = (0..k).map(|_| names[r.below(pool) as usize]).collect(); format!("{}{}", if abs { "/" } else { "" }, comps.join(sep)) };
     rel_case("x0", "/foo/bar.js", "/foo/x/y.map"); rel_case("x1", "/a/b/c/d.js", "/a/x/y/z.map"); rel_case("x2", "/a/b.js", "/a"); rel_case("x3", "/foo/bar/baz.js", "/foo/barbaz/baz.map"); rel_case("x4", "/static/Lib/app.min.js", "/static/lib/app.min.js.map"); rel_case("x5", "a/a", "ab"); rel_case("x6", "a/a", "A");
     for i in 0..n { let b = path(r); let t = path(r); rel_case(&format!("r{}", i), &b, &t); }
@@ -291,7 +292,7 @@ fn map_obs(sm: &sourcemap::SourceMap) -> String {
 }
 fn gen_map(r: &mut Rng, sorted_sources: bool) -> sourcemap::SourceMap {
     let spool = ["a.js", "b.js", "", "/abs/c.js", "http://x/d.js", "/abs/e/f.js", "a.js", "q/\u{e9}.js", "https:g.js", "http:h.js", "/absolute/z.js", "/abs", "http://xy/w.js",
-        "src/\u{e9}.js", "\u{65e5}\u{672c}\u{8a9e}.js", "app/\u{1f600}.js", "webpack:///./src/a.js?abcd", "lib/x>y~.js", "e.js", "/abs/a.js", "Http://x/d.js", "/work/a/i.js", "/work/b/i.js", "/abs/a.js", "/work/a/i.js"];
+        "src/\u{e9}.js", "\u{65e5}\u{672c}\u{8a9e}.js", "app/\u{1f600}.js", "webpack:///./src/a.js?abcd", "lib/x>y~.js", "e.js", "/abs/a.js", "Http://x/d.js", "/work/a/i.js", "/work/b/i.js", "/abs/a.js", "/work/a/i.js", "C:\\x\\y.js", "c:/x/z.js", "C:\\x\\w\\v.js", "1:/n.js", "/x.js", "/y.js", "/abs/dir/", "dir/"];
     let npool = ["x", "y", "", "fn", "x", "\u{1f44c}ok", "caf\u{e9}", "a>b?c~"];
     let nsrc = 1 + r.below(4) as usize; let nn = r.below(4) as usize;
     let srcs: Vec<&str> = (0..nsrc).map(|i| if sorted_sources { spool[i] } else { spool[r.below(spool.len() as u64) as usize] }).collect();
@@ -532,6 +533,8 @@ fn run_fname_gen(r: &mut Rng, n: u64, any_col: bool) {
             for _ in 0..r.below(3) { toks.push(Tok { dl: li as u32, dc: u + r.below(3) as u32, sl: 0, sc: 0, src: 0, name: r.below(4) as u32, range: false }); } // at and past the end
             lines.push(s);
         }
+        // a map may be longer than the text it is asked about (a stale map): tokens on lines the text does not have read as empty lines
+        if r.below(5) == 0 { for _ in 0..(1 + r.below(2)) { toks.push(Tok { dl: nlines as u32 + r.below(2) as u32, dc: r.below(6) as u32, sl: 0, sc: 0, src: 0, name: r.below(4) as u32, range: false }); } }
         let text = lines.join("\n"); let sv = sourcemap::SourceView::new(text.clone().into());
         toks.sort_by_key(|t| (t.dl, t.dc));
         if toks.is_empty() { continue; }
@@ -782,6 +785,7 @@ fn run_hermes(r: &mut Rng, n: u64) {
                         if el != cur_line && r.below(2) == 0 { s.push(';'); pc = 0; first = true; }     // a ';' resets the column but lines come from field 3
                         cur_line = el;
                         if !first { s.push(','); } first = false;
+                        if r.below(12) == 0 { s.push(','); }                                           // an empty segment is skipped
                         own_vlq(ec as i64 - pc, &mut s); pc = ec as i64;
                         let en_i = if en == u32::MAX { -1 } else { en as i64 };      // an index of -1 is written as such; as a u32 it is 4294967295: out of range
                         let dn = en_i - pn; let dl = el as i64 - pl;
@@ -1139,6 +1143,9 @@ fn run_api(r: &mut Rng, n: u64, group: &str) {
                     chk("get_token_count", sm.get_token_count() as usize == toks.len());
                     chk("get_token(i)=iter[i]", toks.iter().enumerate().all(|(k, t)| sm.get_token(k).map(|x| x.get_raw_token()) == Some(t.get_raw_token())) && sm.get_token(toks.len()).is_none());
                     chk("non-decreasing", toks.windows(2).all(|w| w[0].get_dst() <= w[1].get_dst()));
+                    // Token's own Eq / Ord: a token equals itself, and the order of tokens begins with the generated position
+                    chk("Token Eq/Ord", toks.iter().all(|t| t == t && t.cmp(t) == std::cmp::Ordering::Equal && t.partial_cmp(t) == Some(std::cmp::Ordering::Equal))
+                        && toks.windows(2).all(|w| if w[0].get_dst() != w[1].get_dst() { w[0] < w[1] && w[0] != w[1] } else { (w[0] == w[1]) == (w[0].get_raw_token() == w[1].get_raw_token()) }));
                     chk("get_dst", toks.iter().all(|t| t.get_dst() == (t.get_dst_line(), t.get_dst_col()) && t.get_src() == (t.get_src_line(), t.get_src_col())));
                     chk("has_source/has_name", toks.iter().all(|t| t.has_source() == t.get_source().is_some() && (t.has_name() == t.get_name().is_some()) && t.has_source() == (t.get_src_id() != !0)));
                     chk("to_tuple", toks.iter().all(|t| t.to_tuple() == (t.get_source().unwrap_or(""), t.get_src_line(), t.get_src_col(), t.get_name())));
@@ -1242,6 +1249,10 @@ fn run_api(r: &mut Rng, n: u64, group: &str) {
                     let rf2 = sourcemap::locate_sourcemap_reference_slice(text2.as_bytes()).unwrap().unwrap();
                     chk("data url: get_url", rf2.get_url() == du);
                     chk("data url: resolve", rf2.resolve("http://x/min.js").is_none() && rf2.resolve_path(std::path::Path::new("/p/min.js")).is_none());
+                    let payload = du.split_once(',').unwrap().1;
+                    chk("data url: other preambles are refused", ["data:text/plain;base64,", "data:application/json;charset=utf8;base64,", "DATA:application/json;base64,", "data:application/json,", "data:application/json;base64", "", " data:application/json;base64,"].iter()
+                        .all(|p| matches!(sourcemap::decode_data_url(&format!("{}{}", p, payload)), Err(sourcemap::Error::InvalidDataUrl))));
+                    chk("data url: both accepted preambles", ["data:application/json;base64,", "data:application/json;charset=utf-8;base64,"].iter().all(|p| sourcemap::decode_data_url(&format!("{}{}", p, payload)).is_ok()));
                     chk("data url: embedded", match rf2.get_embedded_sourcemap() { Ok(Some(sourcemap::DecodedMap::Regular(m))) => { let mut a = vec![]; let mut b = vec![]; m.to_writer(&mut a).unwrap(); sm.to_writer(&mut b).unwrap(); a == b } _ => false });
                 }
                 "rewrite" => {  // C09 / C08: remove_names, flatten_and_rewrite
@@ -1270,6 +1281,8 @@ fn run_api(r: &mut Rng, n: u64, group: &str) {
                         chk("SourceMap::from_reader", sourcemap::SourceMap::from_reader(rd()).map(|m| sm_full_obs(&m)).map_err(|_| ()) == sourcemap::SourceMap::from_slice(&bytes).map(|m| sm_full_obs(&m)).map_err(|_| ()));
                         chk("SourceMapIndex::from_reader", sourcemap::SourceMapIndex::from_reader(rd()).map(|m| dm_full_obs(&sourcemap::DecodedMap::Index(m))).map_err(|_| ()) == sourcemap::SourceMapIndex::from_slice(&bytes).map(|m| dm_full_obs(&sourcemap::DecodedMap::Index(m))).map_err(|_| ()));
                         chk("from_slice kinds", match &dm { sourcemap::DecodedMap::Regular(_) => sourcemap::SourceMap::from_slice(&bytes).is_ok() && sourcemap::SourceMapIndex::from_slice(&bytes).is_err(), sourcemap::DecodedMap::Index(_) => sourcemap::SourceMapIndex::from_slice(&bytes).is_ok() && sourcemap::SourceMap::from_slice(&bytes).is_err(), _ => true });
+                        chk("SourceMapHermes::from_reader", sourcemap::SourceMapHermes::from_reader(rd()).map(|m| dm_full_obs(&sourcemap::DecodedMap::Hermes(m))).map_err(|_| ()) == sourcemap::SourceMapHermes::from_slice(&bytes).map(|m| dm_full_obs(&sourcemap::DecodedMap::Hermes(m))).map_err(|_| ()));
+                        chk("SourceMapHermes::from_slice kinds", sourcemap::SourceMapHermes::from_slice(&bytes).is_ok() == matches!(dm, sourcemap::DecodedMap::Hermes(_)));
                         chk("is_sourcemap", sourcemap::is_sourcemap(rd()) && sourcemap::is_sourcemap_slice(&bytes));
                     }
                 }
